@@ -646,6 +646,12 @@ impl Scenario for AllReg {
                     hops.push([cur, next]);
                     cur = next;
                 }
+                // sometimes a later hop does not continue where the previous one ended: its declared offer is
+                // some other asset (every hop on its own must still be a registered pair)
+                if hops.len() >= 2 && rng.chance(1, 4) {
+                    let k = 1 + rng.idx(hops.len() - 1);
+                    hops[k][0] = (hops[k][0] + 1 + rng.idx(n - 1)) % n;
+                }
                 if kind <= 21 {
                     Op::AddRoute { offer: start, ask: cur, hops }
                 } else {
